@@ -245,6 +245,14 @@ func (w *World) lintFn(fn *ssa.Function, path []string) (hits []lintHit, mapRang
 				if isFloat(x.Type()) && !isFloat(x.X.Type()) {
 					hit("conversion to floating point", in)
 				}
+			case *ssa.Store:
+				if what := w.processLocalWrite(x.Addr); what != "" {
+					hit(what, in)
+				}
+			case *ssa.MapUpdate:
+				if what := w.processLocalWrite(x.Map); what != "" {
+					hit(what, in)
+				}
 			case *ssa.Range:
 				if _, ok := x.X.Type().Underlying().(*types.Map); ok {
 					what := "range over map " + types.TypeString(x.X.Type(), func(p *types.Package) string { return p.Name() })
